@@ -1,10 +1,11 @@
 CONSTANTS
   Mutant = "none"
   MaxLen = 2
-  Family = "all"
+  Family = "envtab"
   Deep = FALSE
-  Cases <- AllCases
-SPECIFICATION Spec
+  Alpha = "full"
+  Cases <- Tables
+SPECIFICATION MCSpec
 INVARIANT Transparency
 INVARIANT WarnedWhenBroken
 INVARIANT SilentWhenCompliant
